@@ -539,6 +539,12 @@ def boundary_values(spec):
                     out.append({"t": "float", "v": repr(float(y))})
                 elif o == "decimal":
                     out.append({"t": "decimal", "v": str(decimal.Decimal(str(y)))})
+        if isinstance(m, int) and not isinstance(m, bool):
+            # beyond what a double holds exactly (divisibility is exact arithmetic): 53+ bits, 17+ digits, beyond the float range
+            if o == "int":
+                out += [_int_spec(m * 10 ** 20), _int_spec(m * 10 ** 20 + 1), _int_spec(m * (2 ** 53 + 1)), _int_spec(m * 2 ** 53 + 1), _int_spec(m * 10 ** 400)]
+            elif o == "decimal":
+                out += [{"t": "decimal", "v": str(m * 10 ** 16)}, {"t": "decimal", "v": str(m * 10 ** 16) + ".5"}, {"t": "decimal", "v": str(m * 10 ** 17 + 1)}]
     if "const" in c:
         v = c["const"]
         out += [v, _wrap_list(v)]
